@@ -59,6 +59,13 @@ def logical_input(rng):
     elif r < 0.8:
         c0 = MC.random_cut_case(rng, rng.choice([3, 6, 10]), ctor='string')
         c = MC.add_virtual(rng, c0) if c0 else None
+    elif r < 0.9:
+        # several levels, possibly with shared nodes at a coarse level (no hydrogens there to force a renumbering)
+        m = MC.random_multilevel_case(rng, rng.choice([6, 10]), coarse_last=False)
+        if m is None:
+            return None
+        cut = m['multi_string'].index('}.{')
+        c = dict(kind='multilevel', base_string=m['multi_string'][:cut + 1], frag_string=m['multi_string'][cut + 2:], features=m['features'])
     else:
         a = ambig.random_case(rng, coarse=False)
         if a is None:
